@@ -360,6 +360,37 @@ Theorem c18_timeout_woken_takes_slot : forall timeout spent e r,
 Proof. exact tl_woken_takes_slot. Qed.
 Print Assumptions c18_timeout_woken_takes_slot.
 
+(* ---------------------------------------------------------------- OnceGuard over histories of any length *)
+(* in every trace -- any schedule, any number of threads, scripts of ANY length, 2^32 calls and
+   beyond -- the number of Take responses "true" is 1 if the guard is taken and 0 otherwise:
+   exactly one Take ever returns true.  (The model keeps a flag, as the code does: Link pins
+   Take = CompareAndSwapUint32 on the flag, no call counter.) *)
+Theorem c18_once_exactly_one_true : forall scripts sched,
+  let s := run (AO.step ONCE.sstep) sched (AO.init ONCE.init scripts) in
+  count_occ_b once_true_ret (AO.trace s) = (if ONCE.done (AO.obj s) then 1 else 0).
+Proof. exact once_exactly_one_true. Qed.
+Print Assumptions c18_once_exactly_one_true.
+
+Theorem c18_once_flag_any_length : forall n c,
+  count_occ_b (fun b : bool => b) (ONCEC.takes 0 c n) <= (if Nat.eqb c 0 then 1 else 0).
+Proof. exact oncec_flag_takes. Qed.
+Print Assumptions c18_once_flag_any_length.
+
+(* a call counter that wraps (modulus w + 2; 2^32 for a uint32) hands the guard out again after one wrap *)
+Theorem c18_once_counter_variant_refuted : forall w,
+  count_occ_b (fun b : bool => b) (ONCEC.takes (S (S w)) 0 (S (S (S w)))) >= 2.
+Proof. exact oncec_counter_refuted. Qed.
+Print Assumptions c18_once_counter_variant_refuted.
+
+(* ---------------------------------------------------------------- Pool.Put(nil) *)
+(* a nil is not a resource: Put(nil) touches nothing, in particular it gives no slot back *)
+Theorem c18_pool_put_nil_noop : forall limit maxage s t, POOL.t_pc (POOL.ts s t) = POOL.PNil ->
+  exists s', POOL.step limit maxage (Thr t) s = Some s' /\ POOL.created s' = POOL.created s /\ POOL.head s' = POOL.head s /\
+             POOL.waiters s' = POOL.waiters s /\ POOL.lock s' = POOL.lock s /\ POOL.t_pc (POOL.ts s' t) = POOL.Idle /\
+             POOL.t_held (POOL.ts s' t) = POOL.t_held (POOL.ts s t).
+Proof. exact pool_put_nil_noop. Qed.
+Print Assumptions c18_pool_put_nil_noop.
+
 (* ---------------------------------------------------------------- ManagedResource *)
 (* the current resource is always the latest one generated (generate runs only when there is none, so
    a freshly generated resource that nobody reported is never discarded and never regenerated); the
@@ -462,6 +493,14 @@ Example c18_limit_zero :
   (LIM.sstep 0 LIM.init 0 (mkop 1 0 0 0), LIM.sstep 0 LIM.init 0 (mkop 2 0 0 0), LIM.sstep 0 LIM.init 0 (mkop 0 0 0 0))
   = (Some (LIM.init, 0), Some (LIM.init, 1), None).
 Proof. reflexivity. Qed.
+
+(* two Gets of a new key, the second held up just before it enters the single flight until the first
+   one's whole flight (lookup, create, register) is over: create runs once, both get resource 1 *)
+Example c18_rm_second_flight_after_first :
+  let scr := fun t => match t with 0 => [mkop 0 1 0 0] | 1 => [mkop 2 1 1 0] | _ => [] end in
+  let fin := replay RM.step RM.busy 80 [0;1] [Thr 1; Thr 0; Open 1] (RM.init scr) in
+  (RM.ncre fin 1, map (fun t => RM.t_res (RM.ts fin t)) [0;1]) = (1, [[(1, 0)]; [(1, 0)]]).
+Proof. vm_compute. reflexivity. Qed.
 
 Example c18_limit_return_without_borrow :
   LIM.sstep 2 LIM.init 0 (mkop 2 0 0 0) = Some (LIM.init, 1).
